@@ -465,6 +465,7 @@ UNDECIDABLE_SEEDS = (
     "C13j",   # per-array merge strategy table
     "C15i",   # inversion moved into load_transform(invert=...) (analytic)
     "C14k",   # vendored euler_from_matrix edited (assumption A4, as C14d)
+    "C14p",   # same: middle angle rewritten with asin / acos
 )
 
 # behaviour-preserving changes on which a check refuses to decide: the same
@@ -472,6 +473,7 @@ UNDECIDABLE_SEEDS = (
 UNDECIDABLE_REFACTORS = {
     "R14_6": ("C14",),   # vendored euler_from_matrix split into helpers: the
                          # summary (A4) was derived from the original code
+    "R14_8": ("C14",),   # same function, middle angle hoisted out of the `if`
 }
 
 
